@@ -26,6 +26,7 @@ impl Sub for HashPoint {
             1 => Just(0usize), 1 => Just(1usize), 1 => Just(40usize),
             2 => 134usize..=138, 2 => 270usize..=274, 1 => 406usize..=410,
             8 => 2usize..=400,
+            1 => prop_oneof![1000usize..=1100, 4090usize..=4100, 8186usize..=8200, 65530usize..=65540],
         ];
         let content = prop_oneof![
             8 => len.clone().prop_flat_map(|n| proptest::collection::vec(any::<u8>(), n)),
@@ -77,7 +78,7 @@ impl Sub for HashPoint {
 }
 
 const META: Meta = Meta {
-    rule: "proptest byte strings of length 0..410 (emphasis on 0, 1, 40 and on lengths around multiples of the SHAKE-256 rate 136), random / constant / counting content; each is hashed for n = 512 and n = 1024 and compared with an independent Keccak-f[1600] + Algorithm 3. Non-trivial = the consumed stream contains a rejected 16-bit chunk (>= 61445); strings whose stream contains the boundary values 61444/61445/61446 are counted separately. Distinct by hash of the string.",
+    rule: "proptest byte strings of length 0..410 (emphasis on 0, 1, 40 and on lengths around multiples of the SHAKE-256 rate 136) and, one in seventeen, long strings around 1 KiB, 4 KiB, 8 KiB and 64 KiB, random / constant / counting content; each is hashed for n = 512 and n = 1024 and compared with an independent Keccak-f[1600] + Algorithm 3. Non-trivial = the consumed stream contains a rejected 16-bit chunk (>= 61445); strings whose stream contains the boundary values 61444/61445/61446 are counted separately. Distinct by hash of the string.",
     assumptions: &[
         "oracle: refimpl::keccak (checked against the NIST SHAKE-256 vectors for '' and 'abc') and refimpl::hash (Algorithm 3)",
     ],
